@@ -217,8 +217,106 @@ func matchDescent(c *Ctx, rule string) {
 		}
 		c.Floor(rule+"/"+rw.name, n, 1)
 	}
+	// ---- addQuery written as a loop instead of a recursion: evaluated with 0, 1 and 2 query elements
+	selfCalls := func(f *ssa.Function) bool {
+		for _, ci := range callsIn(f) {
+			if staticCallee(ci.Common()) == f {
+				return true
+			}
+		}
+		return false
+	}
+	recFns := []*ssa.Function{addQ, remQ}
+	if !selfCalls(addQ) {
+		recFns = []*ssa.Function{remQ}
+		f := addQ
+		c.Analysed(fnName(f))
+		qP, clP, recvP := ssa.Value(f.Params[1]), ssa.Value(f.Params[2]), ssa.Value(f.Params[0])
+		qcls := func(e *PPA, st *State, rv RV) string {
+			r := e.Resolve(st, rv)
+			if call, ok := r.V.(*ssa.Call); ok {
+				if la, ok := lenArg(call); ok && e.Resolve(st, RV{r.F, la}).V == qP {
+					return "QLEN"
+				}
+			}
+			return ""
+		}
+		for _, qlen := range []int64{0, 1, 2} {
+			at := &Atoms{Class: qcls, Int: map[string]int64{"QLEN": qlen}}
+			e := &PPA{Cond: at.Cond, MaxVisits: 4, TraceLookups: true, Watch: func(ev *Ev) bool {
+				return strings.HasPrefix(ev.Label, "lookup:") || strings.HasPrefix(ev.Label, "mapupdate:") || ev.Label == "builtin:delete"
+			}}
+			e.deepApplied = true
+			e.Run(f)
+			c.Paths += len(e.Paths)
+			c.Scen++
+			n := 0
+			for i := range e.Paths {
+				p := &e.Paths[i]
+				if p.End != "return" {
+					continue
+				}
+				n++
+				ok := true
+				detail := ""
+				step := int64(0)
+				cur := RV{p.Trace0F(), recvP} // the node reached so far
+				var lastLookup *Ev
+				registered := false
+				for j := range p.Trace {
+					ev := &p.Trace[j]
+					switch {
+					case strings.HasPrefix(ev.Label, "lookup:") && ev.Field == fChildren:
+						if ev.Note != fmt.Sprintf("elem:%d", step) || len(ev.Args) < 3 || ev.Args[2].V != qP || ev.Base.V != cur.V {
+							ok, detail = false, fmt.Sprintf("step %d looks up %s (%s) in the children of %s", step, Expr(ev.Args[1].V), ev.Note, Expr(ev.Base.V))
+						}
+						lastLookup = ev
+						// the node reached by this step: the looked-up child ...
+						if lk, isLk := ev.In.(*ssa.Lookup); isLk {
+							for _, rr := range *lk.Referrers() {
+								if ex, isEx := rr.(*ssa.Extract); isEx && ex.Index == 0 {
+									cur = RV{ev.F, ex}
+								}
+							}
+							if !lk.CommaOk {
+								cur = RV{ev.F, lk}
+							}
+						}
+						step++
+					case strings.HasPrefix(ev.Label, "mapupdate:") && ev.Field == fChildren:
+						// ... or the child created for it (same key, stored into the same node)
+						if lastLookup == nil || ev.Note != lastLookup.Note || ev.Base.V != lastLookup.Base.V {
+							ok, detail = false, "child created under a key other than the one looked up"
+						}
+						cur = ev.Args[2]
+					case strings.HasPrefix(ev.Label, "mapupdate:") && ev.Field == fClients:
+						key := ev.Args[1].V
+						if mi, isMI := key.(*ssa.MakeInterface); isMI {
+							key = mi.X
+						}
+						if step != qlen || key != clP || ev.Base.V != cur.V {
+							ok, detail = false, fmt.Sprintf("client registered after %d of %d steps at %s", step, qlen, Expr(ev.Base.V))
+						}
+						registered = true
+					case strings.HasPrefix(ev.Label, "lookup:") || strings.HasPrefix(ev.Label, "mapupdate:"):
+						// other maps (e.g. a nil check replaced by a lookup) are not part of the descent
+					default:
+						ok, detail = false, "unexpected "+ev.Label
+					}
+				}
+				if !registered || step != qlen {
+					ok = false
+					if detail == "" {
+						detail = fmt.Sprintf("%d descent steps for %d query elements, registered=%v", step, qlen, registered)
+					}
+				}
+				c.Check(ok, rule, fnName(f), fmt.Sprintf("loop form, %d query elements: descends through children[query[0..]] in order and registers the client at the node reached", qlen), P.Pos(f.Pos()), detail+"; path: "+p.String())
+			}
+			c.Floor(fmt.Sprintf("%s/%s(loop,%d)", rule, fnName(f), qlen), n, 1)
+		}
+	}
 	// ---- addQuery / removeQuery: same key and suffix
-	for _, f := range []*ssa.Function{addQ, remQ} {
+	for _, f := range recFns {
 		c.Analysed(fnName(f))
 		qP := ssa.Value(f.Params[1])
 		clP := ssa.Value(f.Params[2])
@@ -292,7 +390,7 @@ func matchDescent(c *Ctx, rule string) {
 								// the child just created and stored under query[0]
 								for k := 0; k < j; k++ {
 									pe := &p.Trace[k]
-									if strings.HasPrefix(pe.Label, "mapupdate:") && pe.Field == fChildren && len(pe.Args) == 3 && pe.Args[2].V == ssa.Value(v) && isIndex0(pe.Args[1].V, qP) {
+									if strings.HasPrefix(pe.Label, "mapupdate:") && pe.Field == fChildren && len(pe.Args) >= 3 && pe.Args[2].V == ssa.Value(v) && isIndex0(pe.Args[1].V, qP) {
 										okChild = true
 									}
 								}
